@@ -8,7 +8,7 @@ mod framework;
 use framework::*;
 
 fn registry() -> Vec<&'static dyn Check> {
-    vec![&e0::c03::C03, &e0::c04::C04, &e0::c05::C05, &e0::c08::C08, &e0::c09::C09, &e1::c02::C02, &e1::c07::C07, &e1::c11::C11, &e1::c15::C15, &e1::c16::C16, &e1::c17::C17, &e1::c18::C18, &e2::c01::C01]
+    vec![&e0::c03::C03, &e0::c04::C04, &e0::c05::C05, &e0::c08::C08, &e0::c09::C09, &e1::c02::C02, &e1::c07::C07, &e1::c11::C11, &e1::c15::C15, &e1::c16::C16, &e1::c17::C17, &e1::c18::C18, &e2::c01::C01, &e2::c06::C06, &e2::c12::C12, &e2::c13::C13, &e2::c14::C14, &e2::c19::C19]
 }
 
 fn usage() -> i32 {
